@@ -59,6 +59,9 @@ def parseBody? (toks : List String) : Option (Nat × Nat × List Level × List L
 def parseEvent? : List String → Option (Nat × Event)
   | "snap" :: body => (parseBody? body).map fun (k, seq, b, a) => (k, .snapshot (OrderBook.new seq b a))
   | "upd" :: body => (parseBody? body).map fun (k, seq, b, a) => (k, .update (OrderBook.new seq b a))
+  -- an update whose sides carry the levels in the order given (an `OrderBook` obtained by
+  -- deserialisation is not re-sorted): `OrderBook::update` upserts them in that order
+  | "updr" :: body => (parseBody? body).map fun (k, seq, b, a) => (k, .update ⟨seq, b, a⟩)
   | _ => none
 
 def depths : List Nat := [0, 1, 3]
